@@ -317,6 +317,20 @@ func (r *R) pathsOf(rule string, fn *ssa.Function) []*core.Path {
 	return ps
 }
 
+// pathsThroughHelpers is pathsOf with the named helpers (when they exist)
+// walked through as if their bodies were written at the call site, so that a
+// rule reads the same whether or not the helper is there.
+func (r *R) pathsThroughHelpers(rule string, fn *ssa.Function, helpers ...*ssa.Function) []*core.Path {
+	r.p.ForceInline = map[*ssa.Function]bool{}
+	for _, h := range helpers {
+		if h != nil {
+			r.p.ForceInline[h] = true
+		}
+	}
+	defer func() { r.p.ForceInline = nil }()
+	return r.pathsOf(rule, fn)
+}
+
 func join(ss []string) string { return strings.Join(ss, ", ") }
 
 func sortedKeys(m map[string]bool) []string {
